@@ -455,9 +455,16 @@ class InstAnalysis:
             res['takes'] = self.val_of_operand(args[1])
             return res
         via_defs = {self.facts.inst[v]['def'] for v in rec.get('via', [])}
-        for a, ty in zip(args, tys):
+        # reference plumbing: `Option<&mut T>::unwrap_or_else(..)` and friends hand the reference on without touching
+        # what it points to (the result aliases the argument through the points-to of extern call results)
+        plumbing = bool(cpath) and cpath.startswith('std::option::Option::<T>::') and \
+            cpath.rsplit('::', 1)[-1] in ('unwrap', 'expect', 'unwrap_or', 'unwrap_or_else', 'unwrap_unchecked') and \
+            bool(tys) and tys[0].get('s', '').startswith(('std::option::Option<&', 'core::option::Option<&'))
+        for ai, (a, ty) in enumerate(zip(args, tys)):
             if ty.get('closure') in via_defs:
                 continue    # a closure the callee runs: handled through its own summary below
+            if plumbing and ai == 0:
+                continue
             locs = self.val_of_operand(a)
             if not locs:
                 continue
